@@ -146,10 +146,6 @@ func (storage *tsstoreImpl) writeSnapshot(s *shard) {
 
 	s.activeTbl = s.memTablePool.Get(s.engineType)
 	s.activeTbl.SetIdx(s.skIdx)
-	if s.SnapShotter != nil {
-		s.SnapShotter.RaftFlushC <- true
-		atomic.StoreUint32(&s.SnapShotter.RaftFlag, 1)
-	}
 	s.snapshotLock.Unlock()
 	verifhook.Point("flush-after-wal-switch")
 
@@ -158,6 +154,13 @@ func (storage *tsstoreImpl) writeSnapshot(s *shard) {
 	verifhook.Point("flush-after-index-flush")
 
 	s.commitSnapshot(s.snapshotTbl)
+	if s.SnapShotter != nil {
+		// a replicated partition has no shard WAL: the raft snapshot index may only
+		// move once the rows it covers are in files, otherwise a crash during the
+		// flush loses them on this replica (the raft log is replayed from that index)
+		s.SnapShotter.RaftFlushC <- true
+		atomic.StoreUint32(&s.SnapShotter.RaftFlag, 1)
+	}
 	nodeMutableLimit.freeResource(curSize)
 	verifhook.Point("flush-after-commit")
 
